@@ -14,12 +14,15 @@ Input lines (one answer line each; `ok n=<size of the τ-closed state set>` or `
 * `cancel sub=<i>`                          subscriber `i`'s context is cancelled
 * `recv sub=<i> v=<v>`                      the reader of subscriber `i` received `v`
 * `chclosed sub=<i>`                        the reader of subscriber `i` saw its channel closed
-* `ccall` / `cret`                          `Close` called / returned
+* `ccall` / `cret`                          a `Close` call was made / a `Close` call returned (any number of
+                                             overlapping or sequential calls; the calls are anonymous)
 * `xsend sub=<i> v=<v>`                     `execute` passed `batcher.execute.beforeSend` for subscriber `i` (lock held)
 * `fexit sub=<i>`                           forwarder `i` passed `batcher.forwarder.exit` (about to take the lock)
 * `park p=send sub=<i> v=<v>` / `unpark p=send`   `execute` is held at `batcher.execute.beforeSend` (lock held,
                                              next subscriber `i`); while held the closure does not move it
 * `park p=exit sub=<i>` / `unpark p=exit sub=<i>`  forwarder `i` is held at `batcher.forwarder.exit`
+* `park p=cas sub=0 v=0` / `unpark p=cas sub=0`    the `Close` call that won the processor's CAS is held at
+                                             `queue.close.afterCAS` (before it closes `stopCh`)
 * `quiet prompt=<i,j,…>`                    the implementation is quiescent: some compatible state must have
                                              no enabled hidden step and no value in the hand of the forwarder of
                                              a subscriber whose reader polls continuously
@@ -36,6 +39,7 @@ structure D where
   cur : SSet := {}
   frozenSend : Bool := false
   frozenExit : List Nat := []
+  frozenCas : Bool := false
   dead : Bool := true
 
 def dummy : It := ⟨0, 0, 0, 0⟩
@@ -60,6 +64,7 @@ def hiddenOK (d : D) : Batcher.Label → Bool
   | .closeReturn => false
   | .send | .skipExit | .skipClose | .skipGone | .proc .cbReturn => !d.frozenSend
   | .fwdRemove i => !d.frozenExit.contains i
+  | .proc .closeStopCh => !d.frozenCas
   | _ => true
 
 def hidden (d : D) (s : Batcher.State) : List Batcher.Label :=
@@ -90,9 +95,6 @@ def showSub (u : Sub) : String :=
 def epcName : EPc → String
   | .idle => "idle" | .waiting r => s!"waiting({r.val})" | .sending r i => s!"sending({r.val})@{i}"
 
-def bcName : CPc → String
-  | .idle => "idle" | .inQueue => "inQueue" | .waiting => "waiting" | .returned => "returned"
-
 def pcName : Pc Nat Nat → String
   | .absent => "absent" | .top => "top" | .peeked r => s!"peeked({r.val})" | .polled r => s!"polled({r.val})"
   | .armed r => s!"armed({r.val})" | .firing r => s!"firing({r.val})" | .popped r => s!"popped({r.val})"
@@ -103,7 +105,7 @@ def cpcName : ClosePc → String
 
 def showState (s : Batcher.State) : String :=
   let q := ",".intercalate (s.p.q.map fun r => s!"k{r.key}={r.val}@{r.time}")
-  s!"q:{q};now:{s.p.now};pc:{pcName s.p.pc};qclose:{cpcName s.p.cpc};reset:{s.p.reset};epc:{epcName s.epc};closed:{s.closed};bc:{bcName s.bc};waitS:{s.waitS};retS:{s.retS};subs:{"".intercalate (s.subs.map showSub)}"
+  s!"q:{q};now:{s.p.now};pc:{pcName s.p.pc};qclose:{cpcName s.p.cpc};reset:{s.p.reset};epc:{epcName s.epc};closed:{s.closed};close(q/l/w/r):{s.cq}/{s.cl}/{s.cw}/{s.cr};waitS:{s.waitS};retS:{s.retS};subs:{"".intercalate (s.subs.map showSub)}"
 
 /-- Successors of one state under one observable event; `none` = malformed line. -/
 def onEvent (d : D) (l : Line) (s : Batcher.State) : Option (List Batcher.State) :=
@@ -149,6 +151,7 @@ def onEvent (d : D) (l : Line) (s : Batcher.State) : Option (List Batcher.State)
       match s.subs[i]? with
       | some u => return if u.pc == .wantLock then [s] else []
       | none => return []
+    | "cas" => return if s.p.cpc == .casDone then [s] else []
     | _ => none
   | "xsend" => do
     let i ← l.nat? "sub"; let v ← l.nat? "v"
@@ -174,7 +177,7 @@ def onEvent (d : D) (l : Line) (s : Batcher.State) : Option (List Batcher.State)
   | _ => none
 
 def pendingWork (s : Batcher.State) : Bool :=
-  s.epc != .idle || s.waitS > 0 || (s.bc != .idle && s.bc != .returned) ||
+  s.epc != .idle || s.waitS > 0 || s.cq + s.cl + s.cw > 0 || (s.p.cpc != .idle && s.p.cpc != .returned) ||
   s.p.q.any (fun r => r.time ≤ s.p.now)
 
 def handle (d : D) (raw : String) : D × String :=
@@ -183,7 +186,7 @@ def handle (d : D) (raw : String) : D × String :=
   if l.op == "reset" then
     let cfg : Batcher.Cfg :=
       ⟨l.nat? "fixed" != some 0, (l.nat? "cap").getD 50, (l.int? "interval").getD 10000000⟩
-    let d' : D := { cfg := cfg, cur := {}, frozenSend := false, frozenExit := [], dead := false }
+    let d' : D := { cfg := cfg, cur := {}, frozenSend := false, frozenExit := [], frozenCas := false, dead := false }
     let cur := closeSet d' [Batcher.init]
     ({ d' with cur := cur }, s!"ok n={cur.size}")
   else if d.dead then (d, "reject at=earlier")
@@ -191,7 +194,7 @@ def handle (d : D) (raw : String) : D × String :=
     (d, " || ".intercalate ((d.cur.toList.take ((l.nat? "n").getD 10)).map showState))
   else if l.op == "stuck" then
     let all := d.cur.toList
-    let k := (all.filter fun s => pendingWork s && ((Batcher.taus d.cfg s).filter (hiddenOK { d with frozenSend := false, frozenExit := [] })).isEmpty
+    let k := (all.filter fun s => pendingWork s && ((Batcher.taus d.cfg s).filter (hiddenOK { d with frozenSend := false, frozenExit := [], frozenCas := false })).isEmpty
                 && (Batcher.step d.cfg s .closeReturn).isNone).length
     (d, s!"stuck n={k} of={all.length}")
   else
@@ -206,6 +209,8 @@ def handle (d : D) (raw : String) : D × String :=
         | "unpark", some "send", _ => { d with frozenSend := false }
         | "park", some "exit", some i => { d with frozenExit := i :: d.frozenExit }
         | "unpark", some "exit", some i => { d with frozenExit := d.frozenExit.filter (· != i) }
+        | "park", some "cas", _ => { d with frozenCas := true }
+        | "unpark", some "cas", _ => { d with frozenCas := false }
         | _, _, _ => d
       let nxt := closeSet d1 (rs.flatMap fun r => r.getD [])
       if nxt.size > closureLimit then
